@@ -19,6 +19,9 @@
 // synced record only). On a sample of images (every as-is image, the first and last offset of
 // every region and one offset in eight) the recovered store must additionally accept one more
 // append+flush, drop an append at a pruned height, and show exactly that after another reopen.
+//
+// Further sub-checks: enospc_test.go (genuine ENOSPC on a tiny tmpfs) and faults_test.go + faultfs_test.go
+// (failure of every file-system operation of the store, with partial effects, in histories that continue).
 package c14
 
 import (
@@ -440,6 +443,18 @@ type H struct {
 
 	nRemovedLogs     int // log files that disappeared during flushes (cleanup)
 	nWatermarkWrites int
+
+	// fault-injection check only (faults_test.go); zero values leave every other check unchanged
+	openFn       func(base string) (store, error) // how reopen / crashContinue open the live directory (nil: openStore)
+	maybeDurable *view                            // a Flush REPORTED FAILURE for the batch leading to this state and the batch is still pending: an as-is crash image may show it absent or complete
+	fx           *faultExt
+}
+
+func (h *H) open(base string) (store, error) {
+	if h.openFn != nil {
+		return h.openFn(base)
+	}
+	return openStore(base)
 }
 
 func newH(rt *rapid.T, c *stats.Case) *H { return newHOn(rt, c, "") }
@@ -484,7 +499,7 @@ func (h *H) op(f string, a ...any) {
 func (h *H) history() string {
 	ops := h.ops
 	pre := ""
-	if len(ops) > 400 {
+	if len(ops) > 400 && os.Getenv("VERIF_FULL_HISTORY") == "" {
 		pre = fmt.Sprintf("…(%d earlier ops) ", len(ops)-400)
 		ops = ops[len(ops)-400:]
 	}
@@ -790,7 +805,7 @@ func (h *H) flush(viaClose bool) {
 // reopen opens a fresh store on the live directory after a Close.
 func (h *H) reopen() {
 	h.op("reopen")
-	st, err := openStore(h.base)
+	st, err := h.open(h.base)
 	if err != nil {
 		h.fail("open-error", "reopen after clean Close failed: %v", err)
 	}
@@ -810,6 +825,9 @@ func (h *H) crashContinue() {
 	wal := walDirOf(h.base)
 	s := takeSnap(wal)
 	allowed := []*view{h.view}
+	if h.maybeDurable != nil {
+		allowed = append(allowed, h.maybeDurable)
+	}
 	what := "as-is"
 	if r := h.last; r != nil && !eqStrings(r.a.flat(), r.b.flat()) && rapid.IntRange(0, 3).Draw(h.rt, "torn") > 0 {
 		k := rapid.IntRange(r.prev, r.size-1).Draw(h.rt, "crashoff")
@@ -831,7 +849,7 @@ func (h *H) crashContinue() {
 	h.gen++
 	nb := filepath.Join(h.root, fmt.Sprintf("live%d", h.gen))
 	writeSnap(walDirOf(nb), s)
-	st, err := openStore(nb)
+	st, err := h.open(nb)
 	if err != nil {
 		h.fail("open-error", "crash image %s: reopening failed: %v", what, err)
 	}
@@ -852,7 +870,7 @@ func (h *H) crashContinue() {
 	}
 	old, oldBase := h.st, h.base
 	h.st, h.base = st, nb
-	h.view, h.pend, h.last = allowed[which].clone(), nil, nil
+	h.view, h.pend, h.last, h.maybeDurable = allowed[which].clone(), nil, nil, nil
 	if old != nil {
 		_ = old.Close() // the dead process; whatever it still writes goes to the abandoned directory
 	}
